@@ -180,7 +180,7 @@ func vhValueOf(cls, maxLen int) interface{} {
 
 func vhMaxLen() int { return 2 + verifTier() }
 
-//verif:bounds all 25 storage-class pairs; int64/float64 full range (no NaN); text (valid UTF-8) and blobs of 0..2 bytes (thorough: 0..3), bytes free incl. NUL; 3 collations
+//verif:bounds all 25 storage-class pairs; int64/float64 full range (no NaN); text (valid UTF-8) and blobs of 0..2 bytes (thorough: 0..3), bytes free incl. NUL; 3 collations (for text x text, and for the pairs with a blob, where the collation must not matter)
 //verif:shards 37
 func VH_C11_compare() {
 	sh := verifShard(37)
@@ -193,6 +193,11 @@ func VH_C11_compare() {
 			return
 		}
 		a, b = vhValueOf(ca, vhMaxLen()), vhValueOf(cb, vhMaxLen())
+		if ca >= 3 && cb >= 3 {
+			// a collation applies to text against text only: with a blob on either
+			// side it must make no difference
+			coll = verifChoice(3)
+		}
 	} else {
 		// text x text, one shard per (collation, length of a)
 		coll = (sh - 25) % 3
@@ -278,7 +283,7 @@ func VH_C11_search_equals() {
 // DESC flag) must not carry over to its neighbour. Concrete spellings (a case
 // split, no solver variables): symbolic text in both columns at once was beyond
 // the solver (no verdict in 15 minutes).
-//verif:prop C11,C03
+//verif:prop C11,C03,C13
 //verif:shards 9
 //verif:bounds key of 2 text columns against a record of 2 text columns, every text one of "b", "B", "b ", "c"; per key column: collation binary / nocase / rtrim and ASC / DESC
 func VH_C11_two_text_columns() {
